@@ -28,7 +28,9 @@ prop("C07", "exploration",
       "a shell grant is taken to cover every exec request that sets the shell flag, whatever command text it carries",
       "grants are stored with AddAuthGrant directly, as hoptests does; no authorized_keys files exist, so every admission is by grant"],
      [dict(name="model", pkg="hopserver", run="^TestVerifC07Grants$", shards=dict(quick=8, thorough=16), thorough_scale=50),
-      dict(name="issue", pkg="hopserver", run="^TestVerifC07Issue$", shards=dict(quick=1, thorough=1))],
+      dict(name="issue", pkg="hopserver", run="^TestVerifC07Issue$", shards=dict(quick=1, thorough=1)),
+      dict(name="concurrent", pkg="hopserver", run="^TestVerifC07ConcurrentAdmission$", shards=dict(quick=8, thorough=16), thorough_scale=20),
+      dict(name="concurrent-race", pkg="hopserver", race=True, run="^TestVerifC07ConcurrentAdmission$", shards=dict(quick=4, thorough=8), thorough_scale=10)],
      exhaustive_core=True,
      text="Model-based search: generated histories of grant storage, connects, exec requests and clock steps run on a real HopServer / "
           "hopSession (stubbed clock and passwd lookup) and on a multiset model written from the statement; every admission and every "
